@@ -37,8 +37,8 @@ RULE = (
 ASSUMPTIONS = [
     "libxml2 + the shipped opc-coreProperties.xsd with local transcriptions of dc.xsd/dcterms.xsd decide schema validity",
     "dates are naive datetimes meaning UTC (docs/api/presentation.rst); a tz-aware datetime must be accepted, persist and leave "
-    "the part valid, and may read back as its wall-clock fields or as the equivalent UTC time (not stated: both taken); non-str "
-    "values for string properties are driven but not judged (undocumented; str() coercion in the code)",
+    "the part valid, and may read back as its wall-clock fields or as the equivalent UTC time (not stated: both taken); a non-str "
+    "value for a string property is an 'other value' and must raise ValueError (the code coerces with str(): open finding)",
     "a hand-built date text the schema rejects (hh:mm without seconds is not an xsd:dateTime) is never held against the reader",
     "bool for revision: ValueError or stored as 1 are both accepted, anything else is a violation",
     "default-part values are those of CorePropertiesPart.default (title, last_modified_by, revision, modified ~ now)",
@@ -90,7 +90,7 @@ def domain(kind, v):
     time-zone-aware datetime is "any datetime" and must be accepted, stay the same across save/re-open and leave the part valid;
     WHICH naive value it reads back as (its wall-clock fields or the equivalent UTC time) is not stated: either is taken."""
     if kind == "string":
-        return "unjudged" if not isinstance(v, str) else "accept" if len(v) <= 255 else "reject"
+        return "reject" if not isinstance(v, str) else "accept" if len(v) <= 255 else "reject"  # "other values raise ValueError"
     if kind == "date":
         if isinstance(v, dt.datetime):
             return "accept" if v.tzinfo is None else "aware"
@@ -423,7 +423,10 @@ def apply_set(acc, part, st, name, value, cls, wit):
         return
     if dom == "reject" or (dom == "bool" and out != "ok"):
         if out == "ok":
-            key = "len256-accepted" if k == "string" else "%s-accepts:%s" % ("datetime" if k == "date" else "revision", vtype(value))
+            if k == "string":
+                key = "len256-accepted" if isinstance(value, str) else "string-accepts-non-str:%s" % type(value).__name__
+            else:
+                key = "%s-accepts:%s" % ("datetime" if k == "date" else "revision", vtype(value))
             acc.violation(key, "%s = %s (%s) was accepted, reads back %r" % (name, repr(value)[:80], cls, getattr(part, name)), wit)
             st.model[name] = getattr(part, name)
             st.tainted.add(name)
@@ -681,12 +684,13 @@ def run_unit(unit, tier, seed, acc):
                 read_corpus(acc, "corpus:" + p)
     elif kind == "undocumented":
         aware = dt.datetime(2020, 1, 2, 3, 4, 5, tzinfo=dt.timezone(dt.timedelta(hours=5, minutes=30)))
-        steps = [["set", n, v, "str:non-str"] for n, v in zip(STRINGS, [None, 5, 1.5, True, b"x"[0]])]
-        run_history(acc, "default", steps + [["cycle"]])
+        for vals in ([None, 5, 1.5, True, b"x"[0]], [7, None, False, 2.5, 10**30]):
+            steps = [["set", n, v, "str:non-str"] for n, v in zip(STRINGS, vals)]
+            run_history(acc, "default", steps + [["cycle"]])
         for name in DATES:  # aware datetimes are judged (accepted, persistent, valid part): every date property x a few offsets
             for off in (0, 330, -480, 840):
                 run_history(acc, "default", [["set", name, enc(aware.replace(tzinfo=dt.timezone(dt.timedelta(minutes=off)))), "dt:tz-aware"], ["cycle"], ["cycle"]])
-        acc.note("non-str values for string properties are accepted by the code (str() coercion); undocumented, driven but not judged")
+        acc.note("non-str values for string properties: 'other values raise ValueError' is the statement; the code coerces with str() (open finding string-accepts-non-str:*)")
 
 
 def read_corpus(acc, src):
